@@ -157,7 +157,6 @@ func isSystem(a *felt.Felt) bool { return a.Equal(lib.F(1)) || a.Equal(lib.F(2))
 type expectation struct {
 	lines    []string // acceptable projection lines (more than one only where the statement leaves it open)
 	resolved int      // block the id denotes, -1 if none
-	skip     bool     // combination not specified (v8 `pending` on block methods)
 }
 
 func exp1(resolved int, line string) expectation {
@@ -166,7 +165,11 @@ func exp1(resolved int, line string) expectation {
 
 // expect computes the property's answer for a query on an API version.
 func (w *world) expect(q *query, ver string) expectation {
-	// anything that is not a block id of this version is refused as invalid params
+	// null where a value is required, and anything that is not a block id of this version, is
+	// refused as invalid params
+	if q.nullPos != "" {
+		return exp1(-1, errLine(codeInvalidParams))
+	}
 	if q.id != nil && q.id.sem(ver) == "invalid" {
 		return exp1(-1, errLine(codeInvalidParams))
 	}
@@ -295,55 +298,22 @@ func (w *world) expect(q *query, ver string) expectation {
 		if e.resolved < 0 {
 			return e
 		}
-		// "last update": the newest block up to the denoted one that wrote the slot (0: never).
-		// Whether a write that does not change the value counts is not said anywhere: both
-		// readings are accepted here, but the two backends must agree (see sigLastUpdateNoop).
-		// candidates: the newest block that changed the value; that wrote the slot at all; that
-		// wrote it other than zero-over-zero
-		slotAt := func(j int) felt.Felt {
-			var v felt.Felt
-			if j >= 0 {
-				if c, ok := w.g.States[j].Contracts[q.addr]; ok {
-					v = c.Storage[q.key]
+		// "last update": the newest block up to the denoted one whose state diff wrote the slot
+		// (0: never). One reading for both backends; the legacy backend's deviation (a zero
+		// written over zero is not logged) is a known finding.
+		touched := 0
+		for j := e.resolved; j >= 0; j-- {
+			if kv, ok := w.g.Bundles[j].SU.StateDiff.StorageDiffs[q.addr]; ok {
+				if _, ok := kv[q.key]; ok {
+					touched = j
+					break
 				}
 			}
-			return v
-		}
-		cands := map[int]bool{}
-		for _, mode := range []string{"changed", "touched", "logged"} {
-			last := 0
-			for j := e.resolved; j >= 0; j-- {
-				kv, ok := w.g.Bundles[j].SU.StateDiff.StorageDiffs[q.addr]
-				if !ok {
-					continue
-				}
-				v, ok := kv[q.key]
-				if !ok {
-					continue
-				}
-				prev := slotAt(j - 1)
-				if mode == "changed" && v.Equal(&prev) {
-					continue
-				}
-				if mode == "logged" && v.IsZero() && prev.IsZero() {
-					continue
-				}
-				last = j
-				break
-			}
-			cands[last] = true
 		}
 		var lines []string
 		for _, l := range e.lines {
 			if strings.HasPrefix(l, "ok ") {
-				var cs []int
-				for c := range cands {
-					cs = append(cs, c)
-				}
-				sort.Ints(cs)
-				for _, c := range cs {
-					lines = append(lines, fmt.Sprintf("%s @%x", l, c))
-				}
+				lines = append(lines, fmt.Sprintf("%s @%x", l, touched))
 			} else {
 				lines = append(lines, l)
 			}
